@@ -324,18 +324,26 @@ impl Loop3D {
         // If there are previous points, Check the points before the new addition
         if n >= 2 {
             let a = self.vertices[n - 2];
-            let b = self.vertices[n - 1];
 
             if a.compare(point) {
                 // going straight back to the previous vertex: the spike
                 // a -> b -> a encloses nothing, so drop it instead of
                 // storing a twice
                 self.vertices.pop();
-            } else if a.is_collinear(b, point)? {
-                // if it is collinear, update last point instead of
-                // adding a new one
-                self.vertices[n - 1] = point;
             } else {
+                // The new point makes the last vertex redundant when it is
+                // collinear with the last two; dropping that vertex exposes
+                // the corner before it, which may have become straight as
+                // well, and so on. Count the redundant vertices before
+                // touching anything, so that an error leaves the loop as
+                // it was.
+                let mut keep = n;
+                while keep >= 2
+                    && self.vertices[keep - 2].is_collinear(self.vertices[keep - 1], point)?
+                {
+                    keep -= 1;
+                }
+                self.vertices.truncate(keep);
                 self.vertices.push(point);
             }
         } else {
@@ -345,6 +353,9 @@ impl Loop3D {
         // Calcualte the normal if possible
         if self.vertices.len() == 3 {
             self.set_normal()?;
+        } else if self.vertices.len() < 3 {
+            // fewer than three vertices do not define a plane (any more)
+            self.normal = Vector3D::new(0., 0., 0.);
         }
         Ok(())
     }
@@ -407,34 +418,48 @@ impl Loop3D {
     /// Closes a [`Loop3D`], calculating its area and checking the connection
     /// between the first and last vertex. If the first and the last
     pub fn close(&mut self) -> Result<(), String> {
+        if self.closed {
+            return Err("Trying to close a closed Loop3D".to_string());
+        }
+
         // Check if we can try to close now...
         if self.vertices.len() < 3 {
             return Err("Loops need at least 3 vertices".to_string());
         }
 
-        // Check the last vertex for collinearity
-        let n = self.vertices.len();
-        let a = self.vertices[n - 2];
-        let b = self.vertices[n - 1];
-        let c = self.vertices[0];
-
-        if a.is_collinear(b, c)? {
-            // collinear. Remove the last vertex
+        // Check the last vertex for collinearity; removing it exposes the
+        // one before it, so repeat while the last corner is straight
+        while self.last_is_redundant()? {
             self.vertices.pop();
+        }
+        if self.vertices.len() < 3 {
+            return Err("Loops need at least 3 vertices".to_string());
         }
 
         // Check if closing would intercept
         self.valid_to_add(self.vertices[0])?;
 
-        // Check the first vertex for collinearity
-        let n = self.vertices.len();
-        let a = self.vertices[n - 1];
-        let b = self.vertices[0];
-        let c = self.vertices[1];
-
-        if a.is_collinear(b, c)? {
-            // collinear. Remove the last vertex
+        // Check the first vertex for collinearity; removing it changes both
+        // corners next to the closing edge, so test them again
+        loop {
+            let n = self.vertices.len();
+            if n < 3 {
+                break;
+            }
+            let a = self.vertices[n - 1];
+            let b = self.vertices[0];
+            let c = self.vertices[1];
+            if !a.is_collinear(b, c)? {
+                break;
+            }
+            // collinear. Remove the first vertex
             self.vertices.remove(0);
+            while self.last_is_redundant()? {
+                self.vertices.pop();
+            }
+        }
+        if self.vertices.len() < 3 {
+            return Err("Loops need at least 3 vertices".to_string());
         }
 
         // Close
@@ -442,6 +467,17 @@ impl Loop3D {
         self.set_area()?;
         self.set_perimeter()?;
         Ok(())
+    }
+
+    /// Is the last vertex collinear with the one before it and the first one
+    /// (i.e., redundant once the loop is closed)? `false` when there are
+    /// fewer than three vertices.
+    fn last_is_redundant(&self) -> Result<bool, String> {
+        let n = self.vertices.len();
+        if n < 3 {
+            return Ok(false);
+        }
+        self.vertices[n - 2].is_collinear(self.vertices[n - 1], self.vertices[0])
     }
 
     /// Sets the normal [`Vector3D`] for a [`Loop3D`]
